@@ -423,6 +423,9 @@ smart_log (char *error_file, int line, char *what, int flag)
   svalue_t *mret;
   extern int pragmas;
 
+  /* both arguments of log_error() must fit: raise "Stack overflow" before anything is allocated */
+  STACK_CHECK (2);
+
   buff = (char *) DMALLOC (strlen (error_file) + strlen (what) +
              ((pragmas & PRAGMA_ERROR_CONTEXT) ? 100 : 40), TAG_TEMPORARY,
              "smart_log: 1");
